@@ -2,6 +2,7 @@ package checks
 
 import (
 	"fmt"
+	"net"
 	"os"
 	"os/exec"
 	"os/user"
@@ -549,6 +550,57 @@ func runC16(c *core.Ctx) {
 				c.Violation("config|explicit-existing-not-loaded", fmt.Sprintf("%s: exit %d, output %q, stderr %q", v.what, res.Exit, clip(res.Out, 80), clip(res.Serr, 120)), caseDoc{Args: args, Note: v.what, Observed: resDoc(res)})
 			}
 		}
+	}
+
+	// (3b') a configuration file that is there but cannot be opened (a bound unix socket; a file without read
+	// permission for a user that is not root) is not "no configuration file": the run fails, it does not go
+	// on with the defaults (food.yaml, log.yaml and the default layout are all there to be picked up silently)
+	{
+		sock := filepath.Join(e.dir, "sock.conf")
+		os.Remove(sock)
+		var cases []struct {
+			what, path string
+			prefix     []string
+		}
+		if ln, err := net.Listen("unix", sock); err == nil {
+			defer ln.Close()
+			cases = append(cases, struct {
+				what, path string
+				prefix     []string
+			}{"a bound unix socket", "sock.conf", nil})
+		}
+		secret := filepath.Join(e.dir, "secret.conf")
+		os.WriteFile(secret, []byte("[Global]\nLogFileName="+filepath.Join(e.dir, c16LogConf)+"\n"), 0o600)
+		os.Chmod(secret, 0)
+		drop := []string{"setpriv", "--reuid=65534", "--regid=65534", "--clear-groups"}
+		if exec.Command(drop[0], append(append([]string{}, drop[1:]...), "test", "-r", filepath.Join(e.dir, "ok.conf"), "-a", "-x", c.HR, "-a", "!", "-r", secret)...).Run() == nil {
+			cases = append(cases, struct {
+				what, path string
+				prefix     []string
+			}{"a file the invoking user (not root) may not read", "secret.conf", drop})
+		} else {
+			c.Count("unreadable_config_as_other_user_not_available", 1)
+		}
+		for _, v := range cases {
+			for _, how := range []string{"--config", "-c", "HR_CONFIG"} {
+				for _, cmd := range [][]string{{"csv", "log"}, {"stats"}, {"reg"}} {
+					args, env := append([]string{how, v.path}, cmd...), map[string]string{}
+					if how == "HR_CONFIG" {
+						args, env = cmd, map[string]string{"HR_CONFIG": filepath.Join(e.dir, v.path)}
+					}
+					res := run.Exec(c.HR, args, run.ExecOpts{Dir: e.dir, Env: env, Prefix: v.prefix, Timeout: 20 * time.Second})
+					c.Eval(1)
+					c.Nontrivial("unopenable", v.what, how, cmd[0])
+					c.Count("existing_config_that_cannot_be_opened", 1)
+					if res.Exit == 0 {
+						c.Violation("config|existing-but-unreadable-skipped", fmt.Sprintf("configuration file given by %s is %s: exit 0, the run went on without it (output %q)", how, v.what, clip(res.Out, 80)), caseDoc{Args: args, Env: env, Note: v.what, Observed: resDoc(res)})
+					}
+				}
+			}
+		}
+		os.Chmod(secret, 0o600)
+		os.Remove(secret)
+		os.Remove(sock)
 	}
 
 	// (3c) the path in effect is the file the operating system finds under that name: a path that leaves a
